@@ -13,7 +13,7 @@ TRUST = ("Trusted: Coq 8.16.1 kernel + vm_compute (no native_compute); Print Ass
 CLAIMS = {
     'C01': dict(
         text="Theorem C01_tokens (Coq): every run of the envelope model run_R is accepted by the dis-style reference machine, by the refinement step_refines (68 opcode cases) lifted through body, collapse tail and STOP; tie: translator-regenerated can_emit/rows proved equal to the model (SrcEquiv), suite S1 (every recorded implementation step must be a member of the envelope and reproduce sim_step), oracle = extracted ref machine over implementation outputs.",
-        note="hand-modelled process_stack_ops/emitters/cleanup tied by suite S1 on recorded traces and by S8 (every small simulated state built by hand, one step of every opcode).",
+        note="hand-modelled process_stack_ops/emitters tied by suite S1 on recorded traces and by S8 (every small simulated state built by hand, one step of every opcode); cleanup_for_stop's loop guards and opcode choices are regenerated from stack_ops.rs by tools/gen_drv.py and proved to rebuild the model's (C11_src_cleanup, soft tie).",
         technique="refinement proof in Coq + translator tie + step-wise correspondence"),
     'C02': dict(
         text="Theorem C02_tokens: memo_ok holds before every step of the reference run (memo clauses of the refinement; PUT index = |memo| is fresh by the key-sequence invariant, GET index is a key in safe mode); tie as C01.",
@@ -33,7 +33,7 @@ CLAIMS = {
         technique="Coq proof over the envelope model + regenerated can_emit + correspondence"),
     'C11': dict(
         text="Theorem C11_tokens: token count = header (<= 2) + T + tail (<= 2T+1) + 1 with T within the knobs; each body step is exactly one token (S1 checks that each step's bytes decode to exactly one opcode and that the recorded T equals the number of body steps).",
-        note="T is drawn by the driver (hand-modelled: target_ok), tied by S1 (hook records T).",
+        note="T is drawn by the driver: the draw (`min + choose_index(max.saturating_sub(min))`) is regenerated from core.rs by tools/gen_drv.py and proved to be the model's and to land within the knobs (C11_src_target, C11_src_decisions in Properties/C11r.v; soft tie: an unreadable source degrades it to correspondence only); also tied by S1 (hook records T).",
         technique="Coq counting proof over the envelope model + correspondence"),
     'C17': dict(
         text="Theorems C17_prefixes / C17_meaning: after every prefix of every run the reference state is related to the simulated state by Inv (same depth, MARK positions, compatible kinds, same memo keys); S1 evaluates exactly this relation (extracted invb) on the implementation's own per-opcode snapshots.",
